@@ -283,7 +283,10 @@ class ModelBuilderSemantics:
         if not args:
             return ast
 
-        typespec = [mangle(s) for s in args[0].split('::')]
+        # NOTE: names of builtin types (list, dict, set...) are used as they are
+        typespec = [
+            s if s in vars(builtins) else mangle(s) for s in args[0].split('::')
+        ]
         typename = typespec[0]
         basenames = reversed(typespec)
 
